@@ -3,6 +3,7 @@ mod ctx;
 mod rng;
 mod tys;
 mod fam_locals;
+mod fam_iter;
 
 use ctx::Ctx;
 
@@ -35,6 +36,8 @@ fn main() {
     let mut ctx = Ctx::new(&out, seed, n, only, &tier);
     match fam.as_str() {
         "locals" => fam_locals::run(&mut ctx),
+        "iter" => fam_iter::run_iter(&mut ctx),
+        "compiter" => fam_iter::run_compiter(&mut ctx),
         x => {
             eprintln!("unknown family {x}");
             std::process::exit(2);
